@@ -16,7 +16,8 @@ import (
 func disciplineObligations(fn *ssa.Function, name string, fc *FuncContract, enc *Enc) []*Obligation {
 	v, ok := fc.Opts["cancelable"]
 	nb, okNB := fc.Opts["nonblocking"]
-	if !ok && !okNB {
+	sc, okSC := fc.Opts["stablecapture"]
+	if !ok && !okNB && !okSC {
 		return nil
 	}
 	tags := splitList(strings.Trim(v, "[]"))
@@ -51,6 +52,51 @@ func disciplineObligations(fn *ssa.Function, name string, fc *FuncContract, enc 
 			Where:  fmt.Sprintf("%s:%d", shortPath(p.Filename), p.Line),
 			Result: &SolveResult{Status: st, Solver: "ssa-dataflow", All: map[string]string{"ssa-dataflow": st}}})
 	}
+	if okSC {
+		// `opt stablecapture`: a frame condition on the cells a closure
+		// captures by reference. After a closure has been created, the
+		// enclosing function must not assign a captured variable again while
+		// that same cell is live (re-executing the variable's declaration
+		// yields a fresh cell): the closure runs later, on another goroutine,
+		// and would otherwise observe a value it was not created for.
+		saved := tags
+		tags = splitList(strings.Trim(sc, "[]"))
+		n := 0
+		for _, b := range fn.Blocks {
+			for i, in := range b.Instrs {
+				mc, isMC := in.(*ssa.MakeClosure)
+				if !isMC {
+					continue
+				}
+				for bi, bind := range mc.Bindings {
+					al, isAl := bind.(*ssa.Alloc)
+					if !isAl {
+						continue
+					}
+					n++
+					st := storeAfterCapture(b, i, al)
+					nm := al.Comment
+					if fv := mc.Fn.(*ssa.Function).FreeVars; bi < len(fv) {
+						nm = fv[bi].Name()
+					}
+					pos := mc.Pos()
+					src := fmt.Sprintf("captured variable %s of %s is not assigned again after the closure is created", nm, mc.Fn.Name())
+					if st != nil {
+						pos = st.Pos()
+						src += fmt.Sprintf(" (assigned at %s)", shortPath(fn.Prog.Fset.Position(st.Pos()).String()))
+					}
+					add("capture-stable."+nm, st == nil, src, pos)
+				}
+			}
+		}
+		if n == 0 {
+			add("capture-stable.none", true, "function creates no closure capturing a variable by reference", fn.Pos())
+		}
+		tags = saved
+		if !ok && !okNB {
+			return out
+		}
+	}
 	if okNB {
 		// `opt nonblocking`: no channel operation of the function may block
 		for _, b := range fn.Blocks {
@@ -71,7 +117,7 @@ func disciplineObligations(fn *ssa.Function, name string, fc *FuncContract, enc 
 				}
 			}
 		}
-		if len(out) == 0 {
+		if !hasKind(out, "nonblocking") {
 			add("no-channel-ops", true, "function has no channel operation", fn.Pos())
 		}
 		return out
@@ -103,8 +149,59 @@ func disciplineObligations(fn *ssa.Function, name string, fc *FuncContract, enc 
 			}
 		}
 	}
-	if len(out) == 0 {
+	if !hasKind(out, "cancelable") {
 		add("no-blocking", true, "function has no blocking instruction", fn.Pos())
 	}
 	return out
+}
+
+// storeAfterCapture returns a Store to the cell allocated by al that can
+// execute after instruction i of block b without al itself executing in
+// between, or nil.
+func storeAfterCapture(b *ssa.BasicBlock, i int, al *ssa.Alloc) *ssa.Store {
+	scan := func(blk *ssa.BasicBlock, from int) (*ssa.Store, bool) {
+		for _, in := range blk.Instrs[from:] {
+			if in == ssa.Instruction(al) {
+				return nil, false
+			}
+			if st, ok := in.(*ssa.Store); ok && st.Addr == ssa.Value(al) {
+				return st, false
+			}
+		}
+		return nil, true
+	}
+	st, cont := scan(b, i+1)
+	if st != nil {
+		return st
+	}
+	if !cont {
+		return nil
+	}
+	seen := map[*ssa.BasicBlock]bool{}
+	work := append([]*ssa.BasicBlock{}, b.Succs...)
+	for len(work) > 0 {
+		blk := work[len(work)-1]
+		work = work[:len(work)-1]
+		if seen[blk] {
+			continue
+		}
+		seen[blk] = true
+		st, cont := scan(blk, 0)
+		if st != nil {
+			return st
+		}
+		if cont {
+			work = append(work, blk.Succs...)
+		}
+	}
+	return nil
+}
+
+func hasKind(out []*Obligation, what string) bool {
+	for _, o := range out {
+		if !strings.HasPrefix(o.Label, "capture-stable") {
+			return true
+		}
+	}
+	return false
 }
